@@ -132,10 +132,11 @@ theorem g_loadPub_encXY (L : G12Laws C) {P : G} {x y : Nat} (h : C.xy P = some (
 
 omit [AddCommGroup G] in
 /-- every successful exit of the `gen_k:` loop has the shape r ‖ s for some one-time key in [1, q-1]
-with r = x_{kP} mod q ≠ 0 -/
+with r = x_{kP} mod q ≠ 0 and s = (r d + k e) mod q ≠ 0 -/
 theorem g_signLoop_shape (C : G12 G) (d e : Nat) : ∀ (fuel : Nat) (tape : Bytes) (used : Nat)
     (sig : Bytes) (used' : Nat), C.signLoop d e fuel tape used = some (.ok, sig, used') →
     ∃ k x y, 0 < k ∧ k < C.q ∧ C.xy (C.smul k C.base) = some (x, y) ∧ x % C.q ≠ 0 ∧
+      addMod (2 ^ C.l) ((x % C.q * d) % C.q) ((k * e) % C.q) C.q ≠ 0 ∧
       sig = natBE C.mo (x % C.q) ++
         natBE C.mo (addMod (2 ^ C.l) ((x % C.q * d) % C.q) ((k * e) % C.q) C.q) := by
   intro fuel
@@ -154,8 +155,11 @@ theorem g_signLoop_shape (C : G12 G) (d e : Nat) : ∀ (fuel : Nat) (tape : Byte
         split at h
         · exact ih _ _ _ _ h
         · rename_i hr0
-          simp only [Option.some.injEq, Prod.mk.injEq, true_and] at h
-          exact ⟨k, R.1, R.2, hk0, hkq, hR, hr0, h.1.symm⟩
+          split at h
+          · exact ih _ _ _ _ h
+          · rename_i hs0
+            simp only [Option.some.injEq, Prod.mk.injEq, true_and] at h
+            exact ⟨k, R.1, R.2, hk0, hkq, hR, hr0, hs0, h.1.symm⟩
 
 /-- a signature r ‖ s with r = x_{kP} mod q ≠ 0, s = (r d + k e) mod q ≠ 0 passes `verify` under dP -/
 theorem g_verify_sig (L : G12Laws C) {Hb pub : Bytes} {d k x y : Nat}
@@ -189,11 +193,11 @@ theorem g_verify_sig (L : G12Laws C) {Hb pub : Bytes} {d k x y : Nat}
   simp only [hr, if_true]
 
 /-- every successful run of g12sSign: the private key is in [1, q-1] and the signature is r ‖ s with
-r = x_{kP} mod q ≠ 0, s = (r d + k e) mod q for a one-time key k (NO statement about s ≠ 0: g12sSign does
-not test it) -/
+r = x_{kP} mod q ≠ 0, s = (r d + k e) mod q ≠ 0 for a one-time key k -/
 theorem g_sign_shape (L : G12Laws C) {Hb priv tape sig : Bytes} {fuel used : Nat}
     (hs : C.sign fuel Hb priv tape = some (.ok, sig, used)) :
     0 < leNat priv ∧ leNat priv < C.q ∧ ∃ k x y, C.xy (k • C.base) = some (x, y) ∧ x % C.q ≠ 0 ∧
+      ((x % C.q * leNat priv) % C.q + (k * C.hashE Hb) % C.q) % C.q ≠ 0 ∧
       sig = natBE C.mo (x % C.q) ++
         natBE C.mo (((x % C.q * leNat priv) % C.q + (k * C.hashE Hb) % C.q) % C.q) ∧
       beNat (sig.drop C.mo) = ((x % C.q * leNat priv) % C.q + (k * C.hashE Hb) % C.q) % C.q := by
@@ -203,10 +207,10 @@ theorem g_sign_shape (L : G12Laws C) {Hb priv tape sig : Bytes} {fuel used : Nat
   by_cases hd : leNat priv = 0 ∨ leNat priv ≥ C.q
   · rw [if_pos hd] at hs; simp at hs
   rw [if_neg hd] at hs
-  obtain ⟨k, x, y, _, _, hxy, hr0, hsig⟩ := g_signLoop_shape C _ _ _ _ _ _ _ hs
+  obtain ⟨k, x, y, _, _, hxy, hr0, hs0, hsig⟩ := g_signLoop_shape C _ _ _ _ _ _ _ hs
   rw [L.smul_eq] at hxy
-  rw [addMod_eq (Nat.mod_lt _ hq) (Nat.mod_lt _ hq) (g_q_lt_W L)] at hsig
-  refine ⟨by omega, by omega, k, x, y, hxy, hr0, hsig, ?_⟩
+  rw [addMod_eq (Nat.mod_lt _ hq) (Nat.mod_lt _ hq) (g_q_lt_W L)] at hsig hs0
+  refine ⟨by omega, by omega, k, x, y, hxy, hr0, hs0, hsig, ?_⟩
   rw [hsig, drop_natBE_append, beNat_natBE, Nat.mod_eq_of_lt (g_lt_pow L (Nat.mod_lt _ hq))]
 
 end Bee2V.C16.Sig
